@@ -72,6 +72,10 @@ func (f *Ecase) Call(s *slip.Scope, args slip.List, depth int) (result slip.Obje
 		if same {
 			for i := 1; i < len(clause); i++ {
 				result = slip.EvalArg(s, clause, i, d2)
+				if _, exit := result.(slip.NonLocalExit); exit {
+					// return-from, return or go: control is leaving the body.
+					return
+				}
 			}
 			found = true
 			break
